@@ -24,6 +24,9 @@ CHECKS = {
     "C07": ("E1", "bounded-exhaustive enumeration of cost configurations x state-pair lattice on CostModel and EdgeTraversal vs closed-form cost",
             "Every cost configuration of the alphabet (1-3 features, weights incl. zero and negative, 8 rate mappings incl. nested combined, 5 network rates, sum/mul) is evaluated on every (prev,next) pair of the {-2..2}^k lattice through traversal_cost, access_cost, cost_estimate and through forward/reverse EdgeTraversal with synthetic access/traversal models: finite, strictly positive (non-negative for estimates), equal to the formula with floor under sum, linear in weights, zero-weight features ignored.",
             "Trusted: closed-form reference in props/c07.rs. Mul aggregation: positivity/finiteness only.", "§4.7"),
+    "C08": ("E2+E1", "exhaustive enumeration of edge histories (all sequences up to a depth over a 12-edge alphabet) applied to the real EnergyTraversalModel vs reference energy / state-of-charge arithmetic",
+            "For every powertrain configuration (ICE/BEV/PHEV x prediction-model, time-model, grade-table and output units x capacity x starting charge x cache on/off; synthetic smooth models incl. negative rates and the bundled Camry/Bolt/Volt models behind the interpolated model) every edge sequence up to length 3 (quick) / 4 (thorough) is traversed step by step: energy = rate x adjustment x length in the rate's distance unit, additive; charge starts at the query value, stays in 0-100, exact change when unclamped; PHEV draws one source per edge by start-of-edge charge; best-case estimate = ideal rate x great-circle distance; bad starting charges rejected.",
+            "Trusted: reference arithmetic in props/c08.rs; synthetic PredictionModel honouring input units through physical factors. 3e-3 (2e-2 for bundled models) relative to accumulated magnitudes.", "§4.8"),
     "C09": ("E1", "bounded-exhaustive enumeration of the complete finite unit-pair space on the real code vs physical reference factors",
             "Every ordered unit pair of all six families and every constructor unit triple is executed on the implementation and compared with SI factors, linearity, identity and round-trip laws; the pair space is finite and covered completely.",
             "Trusted: reference factors in harness/src/refmodel/units.rs; magnitudes outside the alphabet follow from linearity of constant-factor tables.", "§4.9"),
@@ -39,6 +42,9 @@ CHECKS = {
     "C13": ("E1", "bounded-exhaustive enumeration of multigraphs x KSP configurations on the real k-shortest-paths code inside sandbox worker processes with per-case deadlines",
             "Every enumerated network x {single-via, Yen} x k x similarity x termination criterion x underlying search (k from configuration or query): 1..k routes when reachable, first is least cost (Bellman-Ford), every route passes the C01 structure clauses, is loop free and passes the C03 accumulation oracle, pairwise distinct, pairwise below the similarity threshold (reference cosine), accept-all >= any threshold, terminates within the deadline, never an error for an answerable query.",
             "Trusted: sandbox classification of hangs; reference similarity. Yen's quick tier uses a covering half of its configuration product (its hanging cases cost a full timeout each).", "§4.13"),
+    "C14": ("E1", "bounded-exhaustive enumeration of grids x multilinear data x point lattices on the real interpolators; bundled models x grids x lattices on the interpolated powertrain model vs the separately loaded underlying model",
+            "(a) uniform and non-uniform axes (2-4 knots), dimensions 1,2,3 and N=2..4, every multilinear coefficient combination (covering subset for N>=3), lattice of knots / midpoints / quarter points / bounds / bounds+-1e-9 / far outside: equality inside, agreement fixed-D vs N-D also on non-multilinear data, Err outside. (b) 6 (quick) / 45 (thorough) bundled random forests x 2-4 grids: prediction within min/max of the four surrounding underlying values, equality at grid points, continuity across grid lines, outside = nearest boundary, 3x3 input units.",
+            "Trusted: smartcore model loaded separately as the oracle; grid coordinates from the repository's own linspace.", "§4.14"),
     "C15": ("E1", "bounded-exhaustive enumeration of edge/vertex lists x file variants loaded by the real loaders vs the lists themselves",
             "All G(3,m,2) multigraphs with self loops, stars and hubs with in/out degree 0..8 and isolated vertices are written as plain and gzip CSV in all 6 vertex column orders, with extra columns, with explicit or scanned counts, loaded through Graph::from_files and DefaultGraphBuilder and compared accessor by accessor (counts, edges by id, vertices, out/in edge sets, triplets, forward = reverse view); per-edge tables (speed, grade, class, heading) row-aligned; bindings accessors.",
             "Trusted: the lists the files were written from. Coordinates written as shortest f32 decimal so comparison is exact.", "§4.15"),
@@ -48,6 +54,9 @@ CHECKS = {
     "C17": ("E1", "bounded-exhaustive enumeration of grid-search sections on the real plugin vs reference Cartesian product",
             "1-3 grid fields x sizes 1-3(4) x element kinds (scalar, object with 1-2 keys, mixed) x every key order x extra fields x section position, through GridSearchPlugin::process and apply_input_plugins: canonical multiset of outputs equals the reference product, count = product of sizes, no grid key left, extras preserved, pass-through unchanged.",
             "Trusted: reference product (props/c17.rs). Object-valued choices use disjoint keys.", "§4.17"),
+    "C20": ("E1", "bounded-exhaustive enumeration of routes/trees x geometry tables x 5 output formats through the real output plugins vs edge sequence and stored geometries",
+            "Every enumerated network with a route is rendered through the real summary / traversal / uuid plugins in edge_id, json, geo_json, wkt and wkb (single routes and several KSP routes, trees, full geometry table and a table one row short): ids and per-edge records follow the returned edge sequence, geometry = concatenation of stored geometries in order, a missing geometry is an error response, one tree entry per branch, uuids of the matched vertices, summary = last state; plus an application-level pass per format.",
+            "Trusted: WKT parser in the harness, wkb crate for decoding; coordinates compared at 1e-6.", "§4.20"),
     "C18": ("E1", "exhaustive enumeration of all digraphs up to n vertices on the real code vs Floyd-Warshall reference",
             "All 2^(n^2) digraphs with self loops for n<=4 (quick) / n<=5 (thorough), all multiplicity<=2 multigraphs on 3 vertices and structured families up to 60 vertices are run through the real component analysis and compared with mutual-reachability classes.",
             "Trusted: Floyd-Warshall reference (refmodel/graph.rs). Graphs beyond 5 vertices only via structured families.", "§4.18"),
